@@ -755,6 +755,7 @@ func (e *Enc) applyContract(fc *FuncContract, key, site string, sig *types.Signa
 		penv.vars[n] = SV{T: results[i].T, Sort: e.sortOf(t), GT: t}
 	}
 	for _, cl := range ensures {
+		penv.calleeGhosts = fc.Ghosts
 		t, ok := penv.tryEvalBool(cl.Expr, crossMode)
 		if !ok && crossMode {
 			e.used["postcondition of "+fc.Key+" could not be evaluated in bit-vector mode and is not used: "+cl.Src] = true
